@@ -69,6 +69,7 @@ Inductive cpc :=
 | SEvictRemove (x : N)             (* used_chunk_list.remove(evicted x) *)
 (* Receiver::receive *)
 | RCtrCheck                        (* *borrow_counter >= max_borrowed_samples *)
+| RCtrExceeded                     (* fail!(.., self.borrow_counter(channel_id), ..): the error message reads it again *)
 | RPopLoadRp                       (* safely_overflowing pop: read_position.load(Relaxed) *)
 | RPopLoadWp (r : N)               (*                         write_position.load(Acquire); empty? *)
 | RPopCas (r : N)                  (*                         read_position.compare_exchange(r, r + 1, Relaxed, Acquire) *)
@@ -239,8 +240,10 @@ Definition receiver_step (g : cgst) (l : clst) : option (cgst * clst * list ev) 
   | RCtrCheck =>
     let e := EAcc 40 B_CTR 0 KCell NotAtomic NotAtomic 0 0 true in
     if N.leb (cM g) (ctr g)
-    then Some (g, at_pc l Idle, [e; ERet RET_EXCEEDS_BORROW])
+    then Some (g, at_pc l RCtrExceeded, [e])
     else Some (g, at_pc l RPopLoadRp, [e])
+  | RCtrExceeded =>
+    Some (g, at_pc l Idle, [EAcc 46 B_CTR 0 KCell NotAtomic NotAtomic 0 0 true; ERet RET_EXCEEDS_BORROW])
   | RPopLoadRp => Some (g, at_pc l (RPopLoadWp (sub_rp g)), [ld 41 B_SRP Relaxed (sub_rp g)])
   | RPopLoadWp r =>
     let e := ld 42 B_SWP Acquire (sub_wp g) in
